@@ -15,7 +15,7 @@ BASE = {
     "Keys": "<- c_Keys1", "KVals": "<- c_KVals2", "Names": "<- c_Names1", "Ids": "<- c_Ids2", "Vecs": "<- c_Vecs2",
     "MKeys": "<- c_MKeys1", "MVals": "<- c_MVals2", "Cfgs": "<- c_CfgsA", "Maints": "<- c_Maints1", "ALs": "<- c_ALs1",
     "Targets": "<- c_Targets", "GNodes": "<- c_Empty", "Rels": "<- c_Empty", "Ws": "<- c_Empty", "Ps": "<- c_Empty",
-    "GName": '"ix"', "CoreVacuum": "FALSE", "Seeded": "FALSE", "Imports": "FALSE", "Evolves": "FALSE", "AccSeeds": "<- c_Empty", "Devs": "<- c_Empty", "MaxFile": 3, "MaxCtr": 3, "MaxAcc": 1, "MaxVer": 2, "MaxOps": 5, "MaxRej": 2,
+    "GName": '"ix"', "CoreVacuum": "FALSE", "Seeded": "FALSE", "Imports": "FALSE", "Evolves": "FALSE", "AccSeeds": "<- c_Empty", "SeedGraph": "FALSE", "Devs": "<- c_Empty", "MaxFile": 3, "MaxCtr": 3, "MaxAcc": 1, "MaxVer": 2, "MaxOps": 5, "MaxRej": 2,
 }
 
 GRAPH = dict(BASE, **{
@@ -55,6 +55,9 @@ IMPORT = dict(SEEDED_BASE, **{"Imports": "TRUE", "Vecs": "<- c_Vecs2b", "MaxRej"
                               "Targets": "<- c_Empty", "MaxCtr": 5, "MaxFile": 7})
 # VEvolve on the seeded graph: the minted id is the model id "g"
 EVOLVE = dict(SEEDED, **{"Evolves": "TRUE", "Ids": "<- c_Ids3g", "Vecs": "<- c_Vecs1b", "MaxRej": 1, "MaxCtr": 5, "MaxFile": 12})
+
+# the seed also holds an edge history (a->b linked, soft-unlinked, re-linked; b->g): deletes and restarts on top of it
+SEEDED_G = dict(SEEDED, **{"SeedGraph": "TRUE", "MaxFile": 12, "MaxVer": 3})
 
 INVS = ["Inv_CleanRestart", "Inv_RestartIdempotent", "Inv_IdMaps", "Inv_ListedIsReadable", "Inv_FwdRevAgree", "Inv_OneActive", "Inv_NoEdgeToDead"]
 PROPS = ["Prop_RejectedNoChange", "Prop_MaintenanceInvisible", "Prop_ReopenIdentity", "Prop_DeleteTouchesOnlyIncident"]
@@ -310,6 +313,17 @@ def run(prop, tier):
         for i, b in enumerate(b2):
             b["id"] = "sw%d" % i
         plans.append((SEEDED, b1 + b2))
+    if prop in ("C12", "C10", "C01"):
+        sg = dict(SEEDED_G, MaxOps=2 if quick else 3)
+        if not quick:
+            model_check(chk, "MC_Kektor_seeded_graph", sg, timeout=3000)
+        cg = corpus(chk, "MC_Kektor_seeded_graph_corpus", sg, workers=8, timeout=3000)
+        pick = {"C12": lambda ops: any(o.get("op") in ("VDelete", "VDeleteCut") and o.get("res") == "ok" for o in ops[7:]),
+                "C10": lambda ops: len(ops) > 7, "C01": lambda ops: len(ops) > 7}[prop]
+        b8, _ = vlib.behaviours_from_corpus(cg, max_behaviours=150 if quick else 8000, rng=rng, need=pick)
+        for i, b in enumerate(b8):
+            b["id"] = "sg%d" % i
+        plans.append((sg, b8))
     total = sum(len(b) for _, b in plans)
     chk.cov["distinct_nontrivial"] = total
     chk.cov["rule"] = ("behaviours = leaves of the prefix tree of TLC's corpus (BFS: one shortest history per reachable state; "
